@@ -234,15 +234,19 @@ func c15SendJoinGen(t *rapid.T) c15SendJoinCase {
 		case "membership":
 			membership = rapid.SampledFrom([]string{"leave", "invite", "ban", "knock", "-", "JOIN"}).Draw(t, "otherMembership")
 		case "state-key":
-			switch rapid.IntRange(0, 3).Draw(t, "skKind") {
+			switch rapid.IntRange(0, 5).Draw(t, "skKind") {
 			case 0:
 				stateKey = nil
 			case 1:
 				stateKey = raSK("")
 			case 2:
 				stateKey = raSK(c15Otto)
-			default:
+			case 3:
 				stateKey = raSK(c15Lara)
+			default:
+				// another user whose ID is a near miss of the sender's (user IDs are case-sensitive)
+				near := []string{"@" + strings.ToUpper(sender[1:2]) + sender[2:], strings.ToUpper(sender), sender + " ", " " + sender, sender + ":8448", sender[:len(sender)-1]}
+				stateKey = raSK(rapid.SampledFrom(near).Draw(t, "skNear"))
 			}
 		case "room":
 			if rapid.Bool().Draw(t, "roomWhich") {
